@@ -346,6 +346,9 @@ def post_load(variant, ops, fail, load):
         res = {"in_scope": in_scope, "oks": oks, "fail_failed": fail_failed, "pre": pre, "sv": sv, "load_rc": rc, "rcs": allrc, "obs": None}
         if rc == 0:
             phase = "probes"
+            d.fork()
+            res["sw_after"] = {x: d.call("s0", "c", "Get" + x) for x in GLOBAL_SW}
+            d.endfork()
             res["obs"] = run_probes(d, variant)
         res["script"] = d.script()
         return res
@@ -473,6 +476,11 @@ def run_case(case):
             base["diagnostics"].append("history %s is not of the stated form (an op that should succeed failed before the end) but shows differences %s" % (ops + ([fail] if fail else []), sig))
         base["out_of_scope"] = True
         return base
+    # the survivors clause, judged directly (a brand-new instance goes through the same load, so it cannot show this)
+    lost = sorted(x for x in GLOBAL_SW if int(res.get("sw_after", {}).get(x, res["sv"]["sw"][x])) != int(res["sv"]["sw"][x]))
+    if lost:
+        base["problems"].append(("global switch %s does not survive %s" % (", ".join(lost), A.LOADS[load][0]),
+                                 "history %s then %s(%s): global output switches before the load %s, after the load %s" % (ops + ([fail] if fail else []), A.LOADS[load][0], A.LOADS[load][1], res["sv"]["sw"], res["sw_after"])))
     if not sig:
         return base
     # differences: find the minimal sub-histories that already show a difference; one problem per minimal culprit
